@@ -56,7 +56,12 @@ structure Under where
   rem : Bytes
   sched : List Nat
   eofData : Bool
+  /-- ghost: `len p` of every `Read(p)` call made so far, latest first (what the reader above asked for) -/
+  reqs : List Nat := []
   deriving Repr
+
+/-- note the request in the ghost log -/
+def Under.logged (u : Under) (want : Nat) : Under := { u with reqs := want :: u.reqs }
 
 /-- hand out at most `n` bytes -/
 def Under.deliver (u : Under) (n : Nat) : RR Under :=
@@ -66,13 +71,16 @@ def Under.deliver (u : Under) (n : Nat) : RR Under :=
     ⟨u.rem.take n, if u.eofData && (u.rem.drop n).isEmpty then some (.e .eof) else none,
      { u with rem := u.rem.drop n }⟩
 
-/-- `Read(p)` with `len p = want` -/
-def Under.read (u : Under) (want : Nat) : RR Under :=
+/-- `Read(p)` with `len p = want`, without the ghost log -/
+def Under.readCore (u : Under) (want : Nat) : RR Under :=
   match u.sched with
   | [] => u.deliver want
   | l :: t =>
     if l = 0 then ⟨[], none, { u with sched := t }⟩
     else ({ u with sched := t } : Under).deliver (min l want)
+
+/-- `Read(p)` with `len p = want` -/
+def Under.read (u : Under) (want : Nat) : RR Under := (u.logged want).readCore want
 
 /-! ## bufio_vendor.go: Reader -/
 
@@ -81,10 +89,13 @@ structure Rd where
   pend : Bytes         -- b.buf[b.r:b.w]
   err : Option XErr    -- b.err
   under : Under        -- b.rd
+  aligned : Bool := false  -- b.aligned (NewAlignedReaderBuf, /repo commit 9c40b59)
   deriving Repr
 
-/-- `reset(buf, r)` with `len buf = cap` (used by `Reset`, which keeps the buffer it has) -/
-def Rd.reset (cap : Nat) (u : Under) : Rd := { cap := cap, pend := [], err := none, under := u }
+/-- `reset(buf, r)` with `len buf = cap` (used by `Reset`, which keeps the buffer it has); the `aligned` flag
+survives a reset -/
+def Rd.reset (cap : Nat) (u : Under) (aligned : Bool := false) : Rd :=
+  { cap := cap, pend := [], err := none, under := u, aligned := aligned }
 
 def minReadBufferSize : Nat := 16
 
@@ -94,6 +105,13 @@ def effCap (cap : Nat) : Nat := if cap = 0 then minReadBufferSize else cap
 
 /-- `NewReaderBuf(rd, buf)` with `len buf = cap` -/
 def Rd.new (cap : Nat) (u : Under) : Rd := Rd.reset (effCap cap) u
+
+/-- `NewAlignedReaderBuf(rd, buf)` (what `DirectIOFactory.CreateNewReader` uses): every read of the underlying
+file goes into the reader's own buffer, never into the caller's slice -/
+def Rd.newAligned (cap : Nat) (u : Under) : Rd := Rd.reset (effCap cap) u true
+
+/-- either constructor -/
+def Rd.make (aligned : Bool) (cap : Nat) (u : Under) : Rd := Rd.reset (effCap cap) u aligned
 
 def maxConsecutiveEmptyReads : Nat := 100
 
@@ -142,8 +160,9 @@ def Rd.read (b : Rd) (n : Nat) : RR Rd :=
       match b.err with
       | some e => ⟨[], some e, { b with err := none }⟩
       | none =>
-        if n ≥ b.cap then
-          -- large read, empty buffer: read directly into p; `b.err` is set and cleared again by readErr
+        if n ≥ b.cap ∧ b.aligned = false then
+          -- large read, empty buffer (never for an aligned reader): read directly into p; `b.err` is set and
+          -- cleared again by readErr
           let r := b.under.read n
           ⟨r.data, r.err, { b with under := r.st }⟩
         else
@@ -170,7 +189,7 @@ def CRd.read (c : CRd) (n : Nat) : RR CRd :=
   ⟨r.data, r.err, { rd := r.st, count := if r.err.isNone then c.count + r.data.length else c.count }⟩
 
 /-- `Reset(r)`: the count is NOT reset -/
-def CRd.reset (c : CRd) (u : Under) : CRd := { c with rd := Rd.reset c.rd.cap u }
+def CRd.reset (c : CRd) (u : Under) : CRd := { c with rd := Rd.reset c.rd.cap u c.rd.aligned }
 
 /-! ## io.ReadFull = io.ReadAtLeast(r, buf, len(buf)) over the counting reader -/
 
@@ -315,9 +334,10 @@ structure FileRd where
   off : Nat
   version : Nat
 
-/-- `NewFileReader` with a reader factory (`NewCountingByteReader(NewReaderBuf(u, make([]byte, cap)))`) -/
-def FileRd.new (file : Bytes) (cap : Nat) (u : Under) : FileRd :=
-  { file := file, rd := { rd := Rd.new cap u, count := 0 }, off := 0, version := 0 }
+/-- `NewFileReader` with a reader factory (`NewCountingByteReader(NewReaderBuf(u, make([]byte, cap)))`, or
+`NewAlignedReaderBuf` for the direct-I/O factory: `aligned = true`) -/
+def FileRd.new (file : Bytes) (cap : Nat) (u : Under) (aligned : Bool := false) : FileRd :=
+  { file := file, rd := { rd := Rd.make aligned cap u, count := 0 }, off := 0, version := 0 }
 
 /-- `Open`: the 8 header bytes through `io.ReadFull`, then `readFileHeaderFromBuffer`.
 Returns (version, compression code). -/
